@@ -95,7 +95,10 @@ def ensure(want=("pure", "cy"), verbose=True):
                         os.unlink(os.path.join(d, "asynq", name))
                 so = [n for n in os.listdir(os.path.join(d, "asynq")) if n.endswith(".so")]
                 if p.returncode != 0 or len(so) < 11:
-                    msg = "cython build failed (rc=%s, %d .so)\n%s" % (p.returncode, len(so), p.stdout[-3000:])
+                    lines = p.stdout.splitlines()
+                    idx = [i for i, l in enumerate(lines) if "Error compiling" in l or ("error:" in l.lower() and ".py" in l)]
+                    ctx = "\n".join(lines[max(0, idx[0] - 2):idx[0] + 25]) if idx else p.stdout[-3000:]
+                    msg = "cython build failed (rc=%s, %d .so)\n%s" % (p.returncode, len(so), ctx)
                     open(os.path.join(d, ".failed"), "w").write(msg)
                     res["cy_error"] = msg
                 else:
